@@ -189,6 +189,10 @@ class Maker:
         k = shape.kind
         if k == "int":
             v = e.T.const(name)
+            if e.mode == "bv" and (shape.lo is None or shape.hi is None):
+                # codec mode covers integer inputs of magnitude < 2^128 (stated in the trusted base)
+                e.used_assumptions.add("codec mode: unbounded integer inputs are taken from (-2^128, 2^128)")
+                st = st.assume(z3.And(v > e.intval(-(1 << 128)), v < e.intval(1 << 128)))
             if shape.lo is not None:
                 st = st.assume(v >= e.intval(shape.lo))
             if shape.hi is not None:
